@@ -138,6 +138,7 @@ func main() {
 		reads bool
 	}
 	var handlers []handler
+	var goCalls [][2]string
 	for _, d := range ce.Decls {
 		fd, ok := d.(*ast.FuncDecl)
 		if !ok || fd.Name.Name != "callWithStack" {
@@ -168,6 +169,52 @@ func main() {
 			}
 			for _, c := range codes {
 				handlers = append(handlers, handler{c, reads})
+			}
+			// the Go function call of the handler: where does its module argument come from?
+			defs := map[string]string{}
+			for _, st := range cc.Body {
+				ast.Inspect(st, func(m ast.Node) bool {
+					if as, ok := m.(*ast.AssignStmt); ok && as.Tok == token.DEFINE && len(as.Lhs) == 1 && len(as.Rhs) == 1 {
+						if id, ok := as.Lhs[0].(*ast.Ident); ok {
+							if call, ok := as.Rhs[0].(*ast.CallExpr); ok {
+								if sel, ok := call.Fun.(*ast.SelectorExpr); ok {
+									defs[id.Name] = sel.Sel.Name + "()"
+								}
+							}
+						}
+					}
+					return true
+				})
+			}
+			for _, st := range cc.Body {
+				ast.Inspect(st, func(m ast.Node) bool {
+					call, ok := m.(*ast.CallExpr)
+					if !ok {
+						return true
+					}
+					sel, ok := call.Fun.(*ast.SelectorExpr)
+					if !ok || sel.Sel.Name != "Call" {
+						return true
+					}
+					if id, ok := sel.X.(*ast.Ident); !ok || id.Name != "f" {
+						return true
+					}
+					prov := "-"
+					if len(call.Args) == 3 {
+						prov = "?"
+						if id, ok := call.Args[1].(*ast.Ident); ok {
+							if d, ok := defs[id.Name]; ok {
+								prov = d
+							} else {
+								prov = "var:" + id.Name
+							}
+						}
+					}
+					for _, c := range codes {
+						goCalls = append(goCalls, [2]string{c, prov})
+					}
+					return true
+				})
 			}
 			return true
 		})
@@ -252,6 +299,15 @@ func main() {
 			sep = ""
 		}
 		fmt.Fprintf(&sb, "  (%q, %v)%s\n", h.code, h.reads, sep)
+	}
+	sb.WriteString("]\n\n/-- (exit code, where the module argument of the handler's `f.Call(ctx, <module>, stack)` comes from; \"-\" = the Go function takes no module) -/\ndef goCalls : List (String × String) := [\n")
+	sort.Slice(goCalls, func(i, j int) bool { return goCalls[i][0] < goCalls[j][0] })
+	for i, g := range goCalls {
+		sep := ","
+		if i == len(goCalls)-1 {
+			sep = ""
+		}
+		fmt.Fprintf(&sb, "  (%q, %q)%s\n", g[0], g[1], sep)
 	}
 	sb.WriteString("]\n\n/-- (what is emitted, lowering function, an unconditional storeCallerModuleContext() precedes it) -/\ndef sites : List (String × String × Bool) := [\n")
 	for i, s := range sites {
